@@ -91,6 +91,9 @@ error:
  */
 double _vnacal_calibration_get_fmin_bound(const vnacal_calibration_t *calp)
 {
+    if (calp->cal_frequencies < 1) {	/* no frequency is in range */
+	return HUGE_VAL;
+    }
     return (1.0 - VNACAL_F_EXTRAPOLATION) * calp->cal_frequency_vector[0];
 }
 
@@ -100,6 +103,9 @@ double _vnacal_calibration_get_fmin_bound(const vnacal_calibration_t *calp)
  */
 double _vnacal_calibration_get_fmax_bound(const vnacal_calibration_t *calp)
 {
+    if (calp->cal_frequencies < 1) {	/* no frequency is in range */
+	return -HUGE_VAL;
+    }
     return (1.0 + VNACAL_F_EXTRAPOLATION) *
 	calp->cal_frequency_vector[calp->cal_frequencies - 1];
 }
